@@ -85,6 +85,16 @@ def install_api(I):
         """an unconstrained ghost integer (e.g. a quantified index in witness form)"""
         return interp.ctx.sym_int(f"{prefix}#{len(interp.ctx.symbols)}")
 
+    def uf(interp, name, *args):
+        """application of an uninterpreted Int-valued function"""
+        f = z3.Function(str(name), *([z3.IntSort()] * len(args)), z3.IntSort())
+        return SV(f(*[ops.zint(a) for a in args]))
+
+    def ufb(interp, name, *args):
+        """application of an uninterpreted Bool-valued function (an abstract predicate)"""
+        f = z3.Function(str(name), *([z3.IntSort()] * len(args)), z3.BoolSort())
+        return SV(f(*[ops.zint(a) for a in args]))
+
     def unreachable(interp, why=""):
         interp.ctx.oblige(f"unreachable: {why}", False)
 
@@ -100,5 +110,7 @@ def install_api(I):
         is_symbolic=NativeFn(is_symbolic, "is_symbolic"),
         fresh_int=NativeFn(fresh_int, "fresh_int"),
         unreachable=NativeFn(unreachable, "unreachable"),
+        uf=NativeFn(uf, "uf"),
+        ufb=NativeFn(ufb, "ufb"),
         SYMBOLIC=True,
     )
